@@ -1990,13 +1990,19 @@ fn specialize(ctor: &Ctor, pattern: &[TypedPattern]) -> Vec<PatternStack> {
             | PatternEnum::StructIgnoreRemaining(struct_name_in_pattern, fields)
                 if struct_name == struct_name_in_pattern =>
             {
-                vec![
-                    fields
-                        .iter()
-                        .map(|(_, pattern)| pattern.clone())
-                        .chain(tail)
-                        .collect(),
-                ]
+                // one pattern per field of the struct, in the order of the definition; fields
+                // that the pattern does not mention (`..`) match anything
+                let mut field_patterns = Vec::with_capacity(field_types.len());
+                for (field_name, ty) in field_types {
+                    match fields.iter().find(|(name, _)| name == field_name) {
+                        Some((_, pattern)) => field_patterns.push(pattern.clone()),
+                        None => {
+                            let wildcard = PatternEnum::Identifier("_".to_string());
+                            field_patterns.push(Pattern::typed(wildcard, ty.clone(), *meta));
+                        }
+                    }
+                }
+                vec![field_patterns.into_iter().chain(tail).collect()]
             }
             _ => vec![],
         },
